@@ -262,7 +262,25 @@ cfg["C24"] = {
     "assumptions": [common_stubs + "; strings with symbolic bytes: the real strings.Join/Split/TrimLeft/Contains SSA runs, the two assembly kernels bytealg.IndexByteString / CountString are byte-wise models"],
 }
 
+cfg["C13"] = {
+    "title": "Deploy status counts are exact and in-progress markers are cleaned up", "design_ref": "DESIGN.md §4 C13 / §7.2",
+    "runs": [{"dir": CAL, "inline_go": True, "quick": P("VerifDeployStatus", "fault=24,count=2"), "thorough": P("VerifDeployStatus", "fault=24,count=2", "fault=32,count=3,slots=3"), "samples": 4}],
+    "bounds": "the cluster half of the property: Calcium.CreateWorkload (AUTO over two nodes with 0-2 deployable slots, 0-2 earlier workloads of the same application entrypoint per node, count 1-2, thorough 3) with no fault or one fault at any store / plugin / engine / WAL call (<=24-32 positions); the deploy status (recorded workloads + in-progress marker) is observed at EVERY intercepted call of the deployment and after it has returned. ONE sequential schedule (pool tasks and goroutines run to completion at their spawn point)",
+    "outside": "the two store backends themselves: that etcd's BatchCreateAndDecr transaction / Redis' pipeline add the workload and decrement the marker atomically, and how GetDeployStatus scans keys, is I/O against external servers and is replaced by a model with exactly that contract; other goroutine interleavings; a failing DeleteProcessing (a store failure, not an instance failure) leaves the marker by construction",
+    "assumptions": ledger_assume + ["store model: CreateProcessing sets the node's marker to the given count, AddWorkload(workload, processing) records the workload and decrements the marker in one step, DeleteProcessing removes it, GetDeployStatus = recorded workloads of the node + marker", "instances planned for a node = the count the deployment asks the resource manager to allocate for it (rmgr.Alloc argument)"],
+}
+
+cfg["C35"] = {
+    "title": "RPC authentication accepts exactly matching credentials", "design_ref": "DESIGN.md §4 C35 / §7.2",
+    "runs": [{"dir": "auth/simple", "quick": P("VerifAuth", "u=2,p=1,same=1", "u=3,p=0,same=1", "u=2,p=1", "u=2,p=1,cu=3,cp=0", "u=1,p=2"), "thorough": P("VerifAuth", "u=2,p=1,same=1", "u=3,p=0,same=1", "u=3,p=2,same=1", "u=2,p=1", "u=2,p=1,cu=3,cp=0", "u=1,p=2", "u=3,p=1", "u=3,p=2,cu=2,cp=2"), "samples": 3}],
+    "bounds": "server and client usernames of 1-3 and passwords of 0-2 SYMBOLIC bytes each (every valid byte value at once: usernames over [0-9A-Za-z._-] and not the reserved header name te, passwords over printable non-blank ASCII), equal or different lengths, client configured with the server's own strings or independently; one unary and one streaming call",
+    "outside": "longer names (the code loops per byte: the length bound is a stated bound); usernames ending in -bin (base64 transport encoding) or that grpc reserves (grpc-*, content-type, user-agent, te, pseudo headers); passwords with blanks (the HTTP/2 spec lets peers strip them); TLS; in the SYMBOLIC run the HTTP/2 transport is a three-line stub (per-RPC credential keys lower-cased as http2_client.getCallAuthData does, values unchanged, standard headers added) - every natively replayed path (samples and counterexamples) ALSO performs both calls over a real in-process grpc-go connection (bufconn) with the real interceptors installed and asserts the stub's verdict equals the real one",
+    "assumptions": [common_stubs + "; strings with symbolic bytes (real strings.ToLower SSA); maps keyed by symbolic strings: linear scan with one solver decision per candidate key", "two metadata keys are the same username iff they are equal ignoring ASCII case (gRPC metadata keys are case-insensitive and travel in lower case)"],
+}
+
 meta = {
+    "C13": "The real CreateWorkload pipeline runs against the ledger world whose store model keeps the in-progress marker with the BatchCreateAndDecr contract; an observer evaluates the reported deploy status at every intercepted call; z3-decided paths prove the status stays within [recorded workloads, prior + planned] during the deployment and equals the recorded workloads with no marker left after it returned, for every single-fault position.",
+    "C35": "simple.BasicCredential.GetRequestMetadata, grpc metadata.NewIncomingContext/FromIncomingContext and BasicAuth.{UnaryInterceptor,StreamInterceptor,doAuth} are executed on usernames/passwords made of symbolic bytes with a stub for the HTTP/2 transport; z3 proves per path that both calls are served iff the usernames are the same metadata key and the passwords are equal; natively replayed paths repeat both calls over a real in-process gRPC connection.",
     "C01": "Every feasible path of strategy.Deploy and the five real strategy functions (real container/heap and sort SSA) is executed with capacities, counts, need, limit, usage and rate symbolic; on each path z3 proves the plan assertions (only candidates, 0<=d<=capacity, exact totals, EACH/FILL selection sizes, AUTO node limit) for all values inside the bounds, or returns a model that is replayed natively. Bounded by node count and, for AUTO/GLOBAL, by need.",
     "C02": "Same exploration; on every path z3 proves err==nil <=> a harness-side reference feasibility predicate (saturating sums, no wrap) and that a refusal returns no plan.",
     "C03": "Same exploration; relational assertions over the returned plan (AUTO evenness within one, GLOBAL usage balance by repeated FP addition on exact grid floats, DRAINED smaller-first, EACH most-capacity, FILL most-instances) are proved per path.",
